@@ -330,14 +330,33 @@ func genScalar(rt *rapid.T, t reflect.Type, r *c11Rendered, top bool) (C11Val, s
 				txt = "-0x" + strconv.FormatUint(uint64(-(i+1))+1, 16)
 			}
 			r.label("int:hex")
+		case 2, 3:
+			// a leading zero makes it a Go legacy octal literal (0755 = 493,
+			// -010 = -8, 00 = 0), as ParseInt with base 0 reads it
+			abs := uint64(i)
+			sign := rapid.SampledFrom([]string{"", "", "+"}).Draw(rt, "octal_sign")
+			if i < 0 {
+				abs, sign = uint64(-(i+1))+1, "-"
+			}
+			txt = sign + "0" + strconv.FormatUint(abs, 8)
+			r.label("int:legacy-octal")
+		case 4:
+			if i >= 0 {
+				txt = "0o" + strconv.FormatInt(i, 8)
+				r.label("int:0o-octal")
+			}
 		}
 		return C11Val{I: &i}, txt
 	case reflect.Uint, reflect.Uint8, reflect.Uint16, reflect.Uint32, reflect.Uint64:
 		u := genUint(rt, bitsOf(t.Kind()))
 		txt := strconv.FormatUint(u, 10)
-		if rapid.IntRange(0, 9).Draw(rt, "uint_style") == 0 {
+		switch rapid.IntRange(0, 9).Draw(rt, "uint_style") {
+		case 0:
 			txt = "0x" + strconv.FormatUint(u, 16)
 			r.label("int:hex")
+		case 1, 2:
+			txt = "0" + strconv.FormatUint(u, 8) // legacy octal, as for signed kinds
+			r.label("int:legacy-octal")
 		}
 		return C11Val{U: &u}, txt
 	case reflect.Float32, reflect.Float64:
@@ -573,7 +592,8 @@ func badTexts(t reflect.Type) []string {
 		max := -(min + 1)
 		over := strconv.FormatUint(uint64(max)+1, 10)
 		under := "-" + strconv.FormatUint(uint64(max)+2, 10)
-		return []string{"", "12x", " 5", "5 ", "1.5", "1e3", "--1", "0x", over, under, "99999999999999999999999"}
+		return []string{"", "12x", " 5", "5 ", "1.5", "1e3", "--1", "0x", over, under, "99999999999999999999999",
+			"089", "09", "-08", "+09", "0778"} // a leading zero announces octal: 8 and 9 are no octal digits
 	case reflect.Uint, reflect.Uint8, reflect.Uint16, reflect.Uint32, reflect.Uint64:
 		bits := bitsOf(t.Kind())
 		var max uint64 = math.MaxUint64 >> (64 - bits)
@@ -581,7 +601,7 @@ func badTexts(t reflect.Type) []string {
 		if bits < 64 {
 			over = strconv.FormatUint(max+1, 10)
 		}
-		return []string{"", "-1", "12x", " 5", "1.5", over, "99999999999999999999999"}
+		return []string{"", "-1", "12x", " 5", "1.5", over, "99999999999999999999999", "089", "09", "08"}
 	case reflect.Float32:
 		// just outside float32 but inside float64, both signs, and far outside
 		return []string{"", "abc", "1.2.3", "1e", " 1", "3.5e38", "-3.5e38", "1e39", "-1e39", "1e40", "-1e300", "1e309"}
